@@ -56,7 +56,7 @@ def run(tier, seed):
     extra = [{"name": "build:%s:%s" % (n, v), "harness": "generator", "kind": "main", "final": "harness_error", "msg": e}
              for n, v, e in skipped]
     return runner.run_property(
-        "C04", hs, tier, seed, 60 if tier == "quick" else 200,
+        "C04", hs, tier, seed, 120 if tier == "quick" else 300,
         bounds={"formats": P.FORMATS, "types": len(QUICK if tier == "quick" else TYPES), "maxlen": 2},
         assumptions=ASSUMPTIONS,
         functions_note=["generated to_<format>/from_<format> mixin methods and per-format nested methods", "format codec encode/decode "
